@@ -7,7 +7,7 @@
 (*   fault   a run of MC_C06's product (one fault or none)      (C06)      *)
 (*   steps   a run of MC_C10's product (configuration lattice)  (C10)      *)
 (***************************************************************************)
-EXTENDS TraceBase, FiniteSets, BVPipeline, BVVcs
+EXTENDS TraceBase, FiniteSets, BVPipeline, BVVcs, BVStatus
 VARIABLE l
 TraceInit == l = 1
 Good == <<OK, 0>>
@@ -66,7 +66,20 @@ MsgVerdict(e) ==
   IF m = BadTemplate THEN <<"skip:template-outside-documented-placeholders", 0>>
   ELSE IF m # e.message THEN <<"msg:not-the-rendered-template", m>> ELSE Good
 
-Verdict(e) == CASE e.ev = "argv" -> ArgvVerdict(e) [] e.ev = "msg" -> MsgVerdict(e) [] e.ev = "fault" -> FaultVerdict(e) [] e.ev = "steps" -> StepsVerdict(e) [] OTHER -> <<"unknown-event", e.ev>>
+\* a committing update on a real repository whose working tree is in some state (C11)
+\*  e.lines : the porcelain lines real git printed before the run   e.paths : paths carrying a version pattern   e.allow : --allow-dirty
+\*  e.exit   e.changed : did any file change   e.sweep : does the bump commit hold anything but the version change of a pattern file
+DirtyVerdict(e) ==
+  LET ps == {e.paths[q] : q \in 1..Len(e.paths)}
+      b == Blocks(e.lines, e.tool, ps, e.allow) IN
+  IF b /\ e.exit = 0 THEN <<"dirty:update-not-blocked", 0>>
+  ELSE IF b /\ e.changed THEN <<"dirty:aborted-after-modifying-files", 0>>
+  ELSE IF ~b /\ e.lines # <<>> /\ OnlyUntrackedOthers(e.lines, e.tool, ps) /\ e.exit # 0 THEN <<"dirty:untracked-unrelated-file-blocks", 0>>
+  ELSE IF e.exit = 0 /\ e.sweep THEN <<"dirty:uncommitted-change-swept-into-bump-commit", 0>>
+  ELSE IF ~b /\ e.exit # 0 THEN <<"dirty:divergence-refused-although-clean-enough", 0>>
+  ELSE Good
+
+Verdict(e) == CASE e.ev = "dirty" -> DirtyVerdict(e) [] e.ev = "argv" -> ArgvVerdict(e) [] e.ev = "msg" -> MsgVerdict(e) [] e.ev = "fault" -> FaultVerdict(e) [] e.ev = "steps" -> StepsVerdict(e) [] OTHER -> <<"unknown-event", e.ev>>
 TraceNext == /\ l <= Len(Trace) /\ l' = l + 1
              /\ LET v == Verdict(Trace[l]) IN v[1] = OK \/ Report(Trace[l], v[1], v[2])
 TraceAccepted == TLCGet("stats").diameter - 1 = Len(Trace)
